@@ -120,20 +120,38 @@ func genPattern(rng *rand.Rand) string {
 	return strings.Join(parts, "/")
 }
 
+// selections that failed in the past (kept minimal), run before the generated ones
+var selectCorpus = []struct {
+	files    []string
+	inc, exc []string
+}{
+	// adjacent "**" components: doublestar.Glob read the second one as "*" (fixed in NewWatcher)
+	{[]string{"a", "b/a", "b/d", "main.txt"}, []string{"**/**/?"}, nil},
+	{[]string{"x.go", "a/x.go", "a/b/x.go", "y.go"}, []string{"**/**/x.go"}, nil},
+	{[]string{"a/x.go", "a/b/x.go", "a/b/d/x.go", "x.go"}, []string{"a/**/**/x.go"}, []string{"**/d/**"}},
+	{[]string{"a/x.go", "b", "src/a/y.go"}, []string{"**/**"}, []string{"**/**/y.go"}},
+	{[]string{"a/x.go", "b", "src/a/y.go"}, []string{"**/**/**/*.go"}, nil},
+	{[]string{"a/x.go", "a/b/c", "b"}, []string{"a/**/**"}, nil},
+}
+
 func selectCase(col *Collector, rng *rand.Rand) {
-	root := newScratchDir("c20")
-	defer os.RemoveAll(root)
 	tree := genTree(rng)
-	for _, p := range tree.paths {
-		os.MkdirAll(filepath.Join(root, filepath.Dir(p)), 0755)
-		os.WriteFile(filepath.Join(root, p), []byte("x"), 0644)
-	}
 	var inc, exc []string
 	for k := 1 + rng.Intn(2); k > 0; k-- {
 		inc = append(inc, genPattern(rng))
 	}
 	for k := rng.Intn(3); k > 0; k-- {
 		exc = append(exc, genPattern(rng))
+	}
+	selectCaseOn(col, tree, inc, exc)
+}
+
+func selectCaseOn(col *Collector, tree treeSpec, inc, exc []string) {
+	root := newScratchDir("c20")
+	defer os.RemoveAll(root)
+	for _, p := range tree.paths {
+		os.MkdirAll(filepath.Join(root, filepath.Dir(p)), 0755)
+		os.WriteFile(filepath.Join(root, p), []byte("x"), 0644)
 	}
 	abs := func(ps []string) []string {
 		out := make([]string, len(ps))
@@ -227,6 +245,9 @@ func runC20(col *Collector, tier string, seed int64) {
 		for _, s := range paths {
 			matchCase(col, p, s)
 		}
+	}
+	for _, c := range selectCorpus {
+		selectCaseOn(col, treeSpec{paths: c.files}, c.inc, c.exc)
 	}
 	for i := 0; i < nsel; i++ {
 		selectCase(col, rng)
